@@ -5,7 +5,7 @@ patch.  On success the seed is stored under /verif/seeded/<id>_<variant>/ with m
 import sys, os, re, subprocess, json, shutil
 seed, pid, var = sys.argv[1:4]
 WT = '/tmp/wt_eval_%s%s' % (pid, var)
-TGT = '/tmp/wt_eval_target'
+TGT = '/tmp/wt_eval_target_%s%s' % (pid, var)
 env = dict(os.environ, CARGO_NET_OFFLINE='true', CARGO_TARGET_DIR=TGT)
 
 def sh(cmd, cwd=WT, timeout=3000):
@@ -13,46 +13,63 @@ def sh(cmd, cwd=WT, timeout=3000):
     return p.returncode, p.stdout.decode('utf-8', 'replace')
 
 notes = open(os.path.join(seed, 'notes.md')).read()
-m = re.search(r"ruzstd/(?:src/)?tests/[A-Za-z0-9_]+\.rs", notes)
+m = re.search(r"(?:ruzstd|cli)/(?:src/)?tests/[A-Za-z0-9_]+\.rs", notes)
 place = m.group(0)
 name = os.path.basename(place)[:-3]
+inlib = '/src/tests/' in place
+pkg = 'ruzstd-cli' if place.startswith('cli/') else 'ruzstd'
+feat = ' --features dict_builder' if 'dict_builder' in notes and pid == 'C20' else ''
+demo_cmd = ('cargo test -p %s --offline%s --lib %s' % (pkg, feat, name)) if inlib else ('cargo test -p %s --offline%s --test %s' % (pkg, feat, name))
 subprocess.run('git -C /repo worktree remove --force %s' % WT, shell=True, stdout=subprocess.DEVNULL, stderr=subprocess.DEVNULL)
 rc, out = sh('git -C /repo worktree add -q --detach %s HEAD' % WT, cwd='/')
-res = {'property': pid, 'variant': var, 'demo_place': place}
-try:
+res = {'property': pid, 'variant': var, 'demo_place': place, 'demo_cmd': demo_cmd}
+
+def put_demo():
     os.makedirs(os.path.dirname(os.path.join(WT, place)), exist_ok=True)
-    # (a) demo on the clean tree
     shutil.copy(os.path.join(seed, 'demo.rs'), os.path.join(WT, place))
-    rc, out = sh('cargo test -p ruzstd --offline --test %s 2>&1 | tail -15' % name)
-    res['demo_clean_pass'] = ('test result: ok' in out) and ('FAILED' not in out)
-    res['demo_clean_tail'] = out[-600:]
+    if inlib:
+        with open(os.path.join(WT, 'ruzstd/src/tests/mod.rs'), 'a') as f:
+            f.write('\npub mod %s;\n' % name)
+
+def del_demo():
     os.remove(os.path.join(WT, place))
-    # (b) suite with the patch
+    if inlib:
+        sh('git checkout -- ruzstd/src/tests/mod.rs')
+
+def passed(out):
+    return ('test result: ok' in out) and ('FAILED' not in out) and not re.search(r"test result: ok\. 0 passed", out.split('Doc-tests')[0])
+
+try:
+    put_demo()
+    rc, out = sh(demo_cmd + ' 2>&1 | tail -15')
+    res['demo_clean_pass'] = passed(out)
+    res['demo_clean_tail'] = out[-600:]
+    del_demo()
     rc, out = sh('git apply %s' % os.path.join(seed, 'patch.diff'))
     res['patch_applies'] = rc == 0
-    rc, out = sh('cargo test --workspace --offline 2>&1 | grep -E "^test result|FAILED|error" | head -12')
+    res['apply_out'] = out[-300:]
+    rc, out = sh('cargo test --workspace --offline 2>&1 | grep -E "^test result|FAILED|^error" | head -12')
     oks = re.findall(r"test result: ok\. (\d+) passed", out)
     res['suite_with_patch'] = out[-500:]
     res['suite_passes_with_patch'] = ('FAILED' not in out) and ('error' not in out) and sum(int(x) for x in oks) >= 82
-    # (c) demo with the patch
-    shutil.copy(os.path.join(seed, 'demo.rs'), os.path.join(WT, place))
-    rc, out = sh('cargo test -p ruzstd --offline --test %s 2>&1 | tail -25' % name)
+    put_demo()
+    rc, out = sh(demo_cmd + ' 2>&1 | tail -25')
     res['demo_fails_with_patch'] = ('FAILED' in out) or ('panicked' in out)
     res['demo_patched_tail'] = out[-800:]
     res['confirmed'] = bool(res['demo_clean_pass'] and res['patch_applies'] and res['suite_passes_with_patch'] and res['demo_fails_with_patch'])
 finally:
     subprocess.run('git -C /repo worktree remove --force %s' % WT, shell=True, stdout=subprocess.DEVNULL, stderr=subprocess.DEVNULL)
+    shutil.rmtree(TGT, ignore_errors=True)
 if res.get('confirmed'):
     dst = '/verif/seeded/%s_%s' % (pid, var)
     os.makedirs(dst, exist_ok=True)
     shutil.copy(os.path.join(seed, 'patch.diff'), dst)
     shutil.copy(os.path.join(seed, 'demo.rs'), dst)
     shutil.copy(os.path.join(seed, 'notes.md'), os.path.join(dst, 'agent_notes.md'))
-    meta = {'property': pid, 'variant': var, 'demo_place': place,
-            'demo_cmd': 'cargo test -p ruzstd --offline --test %s' % name,
+    meta = {'property': pid, 'variant': var, 'demo_place': place, 'demo_cmd': demo_cmd,
             'confirmed_by': 'tools/seed_verify.py in a scratch worktree of /repo HEAD: demo passes clean, suite passes with patch (%s), demo fails with patch' % re.sub(r"\s+", " ", res['suite_with_patch'])[:200],
             'needs_to_manifest': 'see agent_notes.md', 'detected_by': 'pending'}
     json.dump(meta, open(os.path.join(dst, 'meta.json'), 'w'), indent=1)
-print(json.dumps({k: v for k, v in res.items() if not k.endswith('_tail') and k != 'suite_with_patch'}))
+print(json.dumps({k: v for k, v in res.items() if not k.endswith('_tail') and k not in ('suite_with_patch', 'apply_out')}))
 if not res.get('confirmed'):
     print(json.dumps(res, indent=1)[:3000])
